@@ -19,6 +19,7 @@ import (
 	"os"
 	"path/filepath"
 	"testing"
+	"time"
 
 	"github.com/klauspost/compress/zstd"
 	"github.com/restic/chunker"
@@ -403,7 +404,7 @@ func c02Corrupt(dir, name string) bool {
 	return found
 }
 
-func (e *c02Env) part2(version uint, mode CompressionMode, scripts [][]string) {
+func (e *c02Env) part2(version uint, mode CompressionMode, scripts [][]string, withCache bool) {
 	cfg := fmt.Sprintf("v%d/%s", version, mode.String())
 	store := kit.NewStore()
 	repo := e.newRepo(store, version, mode, false)
@@ -518,13 +519,13 @@ func (e *c02Env) part2(version uint, mode CompressionMode, scripts [][]string) {
 	cfgID := repo.Config().ID
 	ci := 0
 	for _, tg := range targets {
-		if !tg.cache {
+		if !tg.cache || !withCache {
 			continue
 		}
 		for _, api := range tg.apis {
 			for si, sc := range scripts {
-				if len(sc) > 2 || (!kit.Thorough() && (si+ci+int(kit.Seed()))%2 != 0 && len(sc) == 2) {
-					continue
+				if len(sc) > 2 || (!kit.Thorough() && len(sc) == 2 && (si+int(kit.Seed()))%8 != 0) {
+					continue // quick: every one-step script, a seed-dependent eighth of the two-step scripts
 				}
 				for _, cs := range []string{"good", "bad"} {
 					ci++
@@ -593,14 +594,18 @@ func TestVerif_C02(t *testing.T) {
 	if kit.Thorough() {
 		p1 = append(p1, pc{1, CompressionAuto, false}, pc{2, CompressionOff, false}, pc{2, CompressionMax, true})
 	}
+	t0 := time.Now()
 	for _, c := range p1 {
 		e.part1(c.v, c.m, c.nv)
 	}
+	res.Count("ms_part1", int(time.Since(t0).Milliseconds()))
+	t0 = time.Now()
 	// part 2: reads under fault scripts
-	e.part2(1, CompressionAuto, scripts)
-	e.part2(2, CompressionOff, scripts)
+	e.part2(1, CompressionAuto, scripts, kit.Thorough())
+	e.part2(2, CompressionOff, scripts, true)
+	res.Count("ms_part2", int(time.Since(t0).Milliseconds()))
 	if kit.Thorough() {
-		e.part2(2, CompressionAuto, scripts)
+		e.part2(2, CompressionAuto, scripts, true)
 	}
 	for k, v := range e.n {
 		res.Count("records_"+k, v)
